@@ -237,7 +237,14 @@ Definition dispatch_misc (kind : string) (args : list string) : option string :=
     (* one handler, n distinct entry-creating frames, then the queries and Close, every call under a
        watchdog: the processors are total and the tables are unbounded maps: every call returns *)
     match args with
-    | [_; n] => Some (out3 ("ret:" ++ n) "-" "-")
+    | _ :: n :: _ => Some (out3 ("ret:" ++ n) "-" "-")   (* distinct keys, or the same key n times: steps are idempotent *)
+    | _ => Some BADARGS end
+  else if String.eqb kind "counters" then
+    (* struct fields incremented anywhere in a handler package (per-entry counters); the model has
+       none: the processors' steps on one key are idempotent.  A new counter must be added here and
+       to the model of the entry it belongs to *)
+    match args with
+    | [pkg; fields] => Some (out3 (if String.eqb fields "-" then "ok" else "new-counter:" ++ fields) "-" "-")
     | _ => Some BADARGS end
   else if String.eqb kind "limits" then
     (* size limits (>= 64) found in the source of a handler package; the model knows none: the
